@@ -212,7 +212,7 @@ pub fn dl<const OP: u8>() {
                         k += 1;
                     }
                     vassert!(v.len() == kept, "NEVER: [C13] length after drain_filter differs from std's");
-                    kani::cover!(mask & 7 == 2 && take == 0, "REACH: middle element removed by dropping the iterator");
+                    kani::cover!(mask & 7 == 2 && take == 0, "INFO: middle element removed by dropping the iterator");
                 }
                 D_SPLIT_OFF => {
                     kani::assume(i <= 3);
